@@ -1032,6 +1032,13 @@ def serializer_flags(prog):
         errs.append("?expected the pointer to be built at two or more sites (table hit, new row), found %d" % n)
     else:
         c = flags.pop()
+        # the flag computed by a private predicate of the pointer (`Self::is_compl(sdd)`): its body, read in its own function
+        c0 = strip(c)
+        if mir.is_call(c0) and (c0[1].local or getattr(c0[1], "res_local", False)) and len(c0[2]) == 1 and strip(c0[2][0]) == ("param", 1):
+            hs_ = [h for h in prog.resolve(c0[1]) if h.kind != "Closure" and h.terms.ret is not None]
+            if len(hs_) == 1:
+                fn, te, cfg = hs_[0], hs_[0].terms, hs_[0].cfg
+                c = strip(te.ret)
         # the flag is a join of constants; follow the variant edges of the match on the pointer
         if not (isinstance(c, tuple) and c[0] in ("phi", "gamma")):
             errs.append("compl flag is not computed from the pointer's variant: %s" % show(c)[:80])
@@ -1089,6 +1096,31 @@ def serializer_flags(prog):
                and "HashMap" in (x[1].key() or "") for x in [u] + list(mir.subterms(u))) and not (u[0] == "agg"):
             errs.append("a returned pointer is read back from the visited table (%s): its complement flag is that of the edge that "
                         "first reached the node, not of the current one" % show(t)[:70])
+    fn = prog.find1(name="serialize_helper", self_adt="serialize::ser_sdd::SDDSerializer", unit="rsdd-lib")
     out.append(inst("CP", "%s:compl-flag" % fn.npath, verdict_of(errs), fn, None,
                     errtext(errs) if errs else "every emitted pointer carries compl = complement bit of the pointer"))
+    # the roots are what the helper returned for them.  An entry point that builds a root pointer itself (to box a terminal
+    # root into a node, say) must take the complement bit from the helper's result: a terminal (False, a negative literal)
+    # already carries its negation, and a flag derived again from the SddPtr negates it a second time
+    for ent, adt_ in (("from_sdd", "serialize::ser_sdd::SDDSerializer"), ("from_bdd", "serialize::ser_bdd::BDDSerializer")):
+        es = [f for f in prog.lib_fns if f.name == ent and f.impl_self == adt_]
+        if len(es) != 1:
+            continue
+        e = es[0]
+        errs_r = []
+        hcalls = [cs for cs in e.terms.calls if cs.callee.name == "serialize_helper"]
+        if not hcalls:
+            errs_r.append("?%s does not call serialize_helper" % ent)
+        for bb, t, line in e.terms.aggs:
+            if t[3] == "Ptr" and t[5] and "compl" in t[5]:
+                fl = strip(t[4][t[5].index("compl")])
+                from_helper = any(mir.is_call(x, "serialize_helper") for x in mir.subterms(fl))
+                if fl[0] == "const" and str(fl[2]) in ("0", "false"):
+                    continue
+                if not from_helper:
+                    errs_r.append("%s builds a root pointer with compl = %s, derived again from the diagram pointer instead of taken from "
+                                  "what serialize_helper returned for the root: a root the helper serialises as a terminal (False, a "
+                                  "negative literal) already carries its negation and is negated a second time" % (ent, show(fl)[:50]))
+        out.append(inst("CP", "%s:root-is-helper-result" % e.npath, verdict_of(errs_r), e, None,
+                        errtext(errs_r) if errs_r else "the root pointers are the helper's results (no complement bit derived again)"))
     return out
